@@ -36,8 +36,24 @@ def parseBool (t : String) : Option Bool :=
 
 def parseName (t : String) : Str := if t = "-" then [] else t.toList
 
+/-- `101:E0,102:S120` (`-` = no event) -/
+def parseEvs (t : String) : Option (List Ev) :=
+  if t = "-" then some []
+  else (t.splitOn ",").mapM fun e =>
+    match e.splitOn ":" with
+    | [p, st] => do pure ((← p.toNat?), (← parseState st))
+    | _ => none
+
 def parseOp (t : String) : Option Op :=
   match words t with
+  | ["sync", evs] => do
+    -- `wait(-1)` of the virtual system hands the pending changes out in the order of the process IDs
+    let e ← parseEvs evs
+    if (e.zip e.tail).all (fun (a, b) => a.1 < b.1) then pure (.sync e) else none
+  | ["prompt", m, i] => do pure (.prompt (← parseBool m) (← parseBool i))
+  | "waitb" :: evs :: args => do pure (.waitEv (← parseEvs evs) (← args.mapM parseArg))
+  | ["kres", a] => do pure (.kres (← parseArg a))
+  | ["bang"] => some .bang
   | ["job", p, st, jc, name] => do pure (.insertJob (← p.toNat?) (← parseState st) (← parseBool jc) (parseName name))
   | "jobs" :: args => do pure (.jobs (← args.mapM parseArg))
   | "bg" :: m :: args => do pure (.bg (← parseBool m) (← args.mapM parseArg))
@@ -120,6 +136,13 @@ def opResult (s : JobList) : Op → String
        | .ok none => "none"
        | .error _ => "amb")
   | .amp pid m i name => showOut (ampersand s pid m i name).1
+  | .prompt m i => encChars (promptReport s m i).1
+  | .waitEv evs args => showOut (waitBuiltinEv s evs args).1
+  | .kres arg =>
+    (match killTarget s arg with
+     | .ok (neg, n) => s!"pid:{if neg then "-" else ""}{n}"
+     | .error e => s!"err:{e}")
+  | .bang => (match bangValue s with | some p => toString p | none => "unset")
   | _ => "-"
 
 /-- the output of the built-in steps, for the documentation checks of `Spec.lean` -/
@@ -129,17 +152,22 @@ def opOut (s : JobList) : Op → Out
   | .fg m i out args => (fgBuiltin s m i out args).1
   | .wait args => (waitBuiltin s args).1
   | .amp pid m i name => (ampersand s pid m i name).1
+  | .prompt m i => { status := 0, stdout := (promptReport s m i).1 }
+  | .waitEv evs args => (waitBuiltinEv s evs args).1
   | _ => { status := 0 }
 
 def pidsMentioned (ops : List Op) : List Nat :=
-  let ps := ops.filterMap fun
+  let ps := ops.flatMap fun
+    | .sync evs => evs.map (·.1)
+    | .waitEv evs _ => evs.map (·.1)
+    | op => (match op with
     | .insert p _ => some p
     | .update p _ => some p
     | .setAsync p => some p
     | .insertJob p _ _ _ => some p
     | .amp p _ _ _ => some p
     | .hjs p _ _ _ => some p
-    | _ => none
+    | _ => none).toList
   ps.eraseDups
 
 def observe (s : JobList) (r : String) (pids : List Nat) : String :=
